@@ -608,6 +608,7 @@ impl Exec {
                 rtype,
                 ttl,
                 rdata,
+                class,
             } => {
                 let ty = match type_from_u16(*rtype) {
                     Some(t) => t,
@@ -619,7 +620,13 @@ impl Exec {
                 let hdr = dgen::RRHeader {
                     name: name_text.as_bytes().to_vec(),
                     ttl: *ttl,
-                    class: Class::IN,
+                    class: match *class {
+                        3 => Class::CH,
+                        4 => Class::HS,
+                        254 => Class::NONE,
+                        255 => Class::ANY,
+                        _ => Class::IN,
+                    },
                     rr_type: ty,
                 };
                 let rr = match guarded(|| dgen::RR::new(hdr, rdata)) {
